@@ -383,16 +383,19 @@ def _norm_func_src(path, qualname):
     """Normalised source of a function/method/class (docstrings and logger calls removed), or None."""
     import ast
     tree = ast.parse(open(path).read())
-    node = tree
+    nodes = [tree]
     for part in qualname.split("."):
-        found = None
-        for n in ast.walk(node) if node is tree else ast.iter_child_nodes(node):
-            if isinstance(n, (ast.FunctionDef, ast.AsyncFunctionDef, ast.ClassDef)) and n.name == part:
-                found = n
-                break
-        if found is None:
+        found = []
+        for node in nodes:
+            it = ast.walk(node) if node is tree else ast.iter_child_nodes(node)
+            # ALL sibling definitions with that name (a property's getter, setter and deleter)
+            found += [n for n in it if isinstance(n, (ast.FunctionDef, ast.AsyncFunctionDef, ast.ClassDef))
+                      and n.name == part]
+            if found and node is tree:
+                found = found[:1] if isinstance(found[0], ast.ClassDef) else found
+        if not found:
             return None
-        node = found
+        nodes = found
 
     class Strip(ast.NodeTransformer):
         def _body(self, n):
@@ -414,7 +417,7 @@ def _norm_func_src(path, qualname):
             n.body = [st for st in n.body if not (isinstance(st, ast.Expr) and isinstance(st.value, ast.Call)
                                                   and ast.unparse(st.value.func).startswith("logger."))] or [ast.Pass()]
             return n
-    return ast.unparse(Strip().visit(node))
+    return "\n".join(ast.unparse(Strip().visit(n)) for n in nodes)
 
 
 def source_pins(pid, pins, update=False):
